@@ -657,8 +657,7 @@ class UnionType(Type):
             except TypeError:
                 pass
 
-        if not isinstance(value, dict):
-            raise ValueError(f"value is not within the types {self}")
+        raise ValueError(f"value is not within the types {self}")
 
 
 class DictType(Type):
